@@ -41,6 +41,40 @@ _HO_NOTE = (" Call-out discipline for K1: wherever the real code subscribes to a
             "on_next from an arbitrary state, then run from an arbitrary later state in which that member is live.")
 
 CHECKS_K1 = {
+    "C19": {
+        "text": "group_by_until_ under a K1 contract over an ABSTRACT MAP from keys to the subjects of the live groups (a z3 array plus "
+                "the sequence of its values in iteration order; the real OrderedDict operations get / [] / []= / del / values() are "
+                "interpreted on it, a missing key raises KeyError as in Python): the real handlers refine the spec machine "
+                "specs/c19.py:group_by_until step by step from an arbitrary state with same(writers, s.live) - a group is handed "
+                "downstream exactly when the key of the element is not in the map (first time, or again after its group expired), as "
+                "GroupedObservable(key, writer, the subscription's ref count); the duration mapper is called with the plain "
+                "(not ref-counted) group; the mapped element goes to exactly the writer of its key; each of the three failing user "
+                "functions, the source's terminal notifications and a failing duration reach EVERY live writer in map order and then "
+                "the output. The subjects the operator creates are used through the Subject contract (C20): calls on them are events "
+                "of their own channels, compared with the spec's in order (receiver, kind, payload). The per-group duration "
+                "subscriptions are a handler family behind the callee contract of take(1): created by one arbitrary element from an "
+                "arbitrary state, its member invariant (the map holds this writer for this key; the subscription is held by the group "
+                "disposable) is proved at creation and assumed in an arbitrary later state in which the member is pending - also after "
+                "the output ended - and its first element or its completion removes exactly that key and completes exactly that "
+                "writer. Call-out discipline: the coupling invariant holds at every call-out (downstream, writers, duration "
+                "subscribe); a loop that notifies the writers must not walk a collection that a re-entered family handler changes "
+                "(it has to iterate a snapshot) - the obligation that found defect 9bbc971. group_by_ is proved to be group_by_until "
+                "with the very mappers it was given and never() durations; GroupedObservable / add_ref: subscribing takes exactly one "
+                "share of the ref-counted subscription and subscribes the observer to the subject once, the result releases each "
+                "exactly once; partition_ / partition_indexed_: two filters of ONE shared publish|ref_count of the source whose "
+                "predicates are the given one and its exact negation (one call, same arguments, exceptions propagate) - with the "
+                "filter contract (C05) every element goes to exactly one output.",
+        "note": _K1_NOTE + _HO_NOTE + " A-key: dict key equality is the equality of the uninterpreted value sort (hash / __eq__ of user "
+                "keys consistent with it). A-subject: subjects are truthy objects; a user subject_mapper hands back a new subject on "
+                "every call. Family rely: the member invariant is proved at creation and assumed in the later state (its stability "
+                "under the steps of OTHER members rests on the writers being distinct objects; argued, not machine-checked). A "
+                "duration that fires synchronously inside subscribe expires the group before the element is delivered: the element "
+                "goes to the completed writer and is dropped (Subject contract) - real code and spec agree, the native reference "
+                "says the same. Dispose-time behaviour (ref counting across groups) is C02/C27. Thorough tier: must-fail mutants and "
+                "winrun.py (native TestScheduler grid against a reference written from the property text, incl. durations derived "
+                "from the group itself) as cross-check; the same runner is the bounded stand-in on drift and the replay search.",
+        "technique": "K1 handler refinement with an abstract key->subject map, subject channels, handler families behind callee contracts and the call-out discipline; function contracts for the wiring; SMT",
+    },
     "C11": {
         "text": "merge_all_ and merge_(max_concurrent=n) are proved to refine their spec machines for all outer timelines and an arbitrary "
                 "number of inner sources: inner elements are forwarded at once and unchanged (per-inner order and timing), an inner or "
